@@ -815,6 +815,14 @@ class Gen:
         self.need.add("EA")
         return ("load", self.tyname(t), t[1], "s" if t[1][0] else "u", t[1][1])
 
+    def pure_expr(self, depth):
+        """an expression without value-producing side effects (the directed families place hybrids inside void calls)"""
+        h, self.c.hybrids = self.c.hybrids, 0.0
+        try:
+            return self.expr(depth)
+        finally:
+            self.c.hybrids = h
+
     def hybrid_expr(self, depth):
         r = self.r
         x = r.random()
@@ -832,6 +840,11 @@ class Gen:
             v = r.choice(["i", "j", "k"])
             self.need.add(v)
             return ("post", v, op)
+        if x < 0.8:
+            # ({ set_usr_field(bundle, FIELD, a); val; }) - the saturation pattern
+            self.stats["seq_expr"] += 1
+            fld = r.choice(["HEX_REG_FIELD_USR_OVF", "HEX_REG_FIELD_USR_LPCFG"])
+            return ("seqexpr", "set_usr_field", ["bundle", fld], [self.pure_expr(depth - 1)], self.pure_expr(depth - 1))
         self.stats["stmt_expr"] += 1
         if self.locals and r.random() < 0.5:
             n = r.choice(sorted(self.locals))
@@ -907,6 +920,10 @@ class Gen:
             return ("raw", r.choice(["cancel_slot;", "STORE_SLOT_CANCELLED(pkt, slot);", ";", "{}"]))
         x -= 0.03
         if x < self.c.hybrids * 0.25:
+            if r.random() < 0.3:
+                self.stats["void_call_stmt"] += 1
+                fld = r.choice(["HEX_REG_FIELD_USR_OVF", "HEX_REG_FIELD_USR_LPCFG"])
+                return ("vcall", "set_usr_field", ["bundle", fld], [self.pure_expr(2)])
             self.stats["expr_stmt_hybrid"] += 1
             return ("exprstmt", self.hybrid_expr(2))
         y = r.random()
